@@ -25,7 +25,11 @@ V_NO_THROW_EXPECTED
 static uint64_t gc_token[4];
 #define THE_GC ((var)&gc_token[3])
 static int n_set = 0, n_rem = 0, n_cur_other = 0; static var set_key[2], rem_key[2]; static int64_t set_root[2]; static _Bool gc_ok = 1;
+#ifdef CELLO_NGC
+var verif_current(var type) { n_cur_other++; return THE_GC; }
+#else
 var verif_current(var type) { if (type != GC) n_cur_other++; return THE_GC; }
+#endif
 void verif_gc_set(var gc, var key, var val) { if (gc != THE_GC) gc_ok = 0; if (n_set < 2) { set_key[n_set] = key; set_root[n_set] = c_int(val); } n_set++; }
 void verif_gc_rem(var gc, var key) { if (gc != THE_GC) gc_ok = 0; if (n_rem < 2) rem_key[n_rem] = key; n_rem++; }
 struct Pt { int64_t x, y; };
@@ -45,8 +49,13 @@ V_HARNESS {
 #if CELLO_ALLOC_CHECK == 1
   V_ASSERT(p != NULL && header(p)->alloc == (var)AllocHeap, "a heap object");
 #endif
+#ifdef CELLO_NGC
+  V_ASSERT(n_set == 0 && n_rem == 0, "without a collector (CELLO_NGC) nothing is registered");
+  if (0) {
+#else
   if (kind == 2) V_ASSERT(n_set == 0, "raw allocations are never registered with the collector");
   else {
+#endif
     V_ASSERT(n_set == 1 && set_key[0] == p && gc_ok, "a managed allocation is registered with the current collector exactly once, under its own address");
     V_ASSERT(set_root[0] == (kind == 1 ? 1 : 0), "it is recorded with the root flag it was allocated with (root for alloc_root/new_root only)");
   }
@@ -54,8 +63,12 @@ V_HARNESS {
 #if CASE == 1
   /* deletion */
   if (kind == 0) del(p); else if (kind == 1) del_root(p); else del_raw(p);
+#ifdef CELLO_NGC
+  V_ASSERT(n_rem == 0 && pt_destructs == 1, "without a collector every del variant finalises the object here, exactly once");
+#else
   if (kind == 2) V_ASSERT(n_rem == 0 && pt_destructs == 1, "del_raw finalises here, exactly once, without the collector");
   else V_ASSERT(n_rem == 1 && rem_key[0] == p && gc_ok && pt_destructs == 0, "del / del_root hand the object to the collector (which finalises and frees it) exactly once and do not finalise it a second time");
+#endif
 #endif
 }
 #endif
